@@ -69,7 +69,15 @@ class _NumericOperationsImpl(OperationsBlock):
 
     @validate_core
     def atan2(self, y, x):
-        return self.atan(self.divide(y, x))
+        y, x = promote(y, x)
+        # atan(y / x) is only the right angle in the half plane x > 0
+        angle = self.atan(self.divide(y, x))
+        pi = float(np.pi)
+        shifted = ndx.where(y < 0, angle - pi, angle + pi)
+        angle = ndx.where(x < 0, shifted, angle)
+        # 0 / 0 is NaN, but atan2(0, 0) is defined (0 for x = +0)
+        origin = ndx.logical_and(x == 0, y == 0)
+        return ndx.where(origin, ndx.zeros_like(angle), angle)
 
     @validate_core
     def atanh(self, x):
